@@ -1,7 +1,7 @@
 (** C05 - Pointer events always carry the true position and button state. Statements only. *)
 From Coq Require Import ZArith List Bool Lia.
 From VD Require Import Base.Bytes Model.ClientMsgs Model.Pointer Model.ClientOps Spec.C2S.
-From VD Require Import Proofs.C2SP Proofs.PointerP Proofs.ClientOpsP Proofs.PointerSpecP Gen.Exprs Proofs.ExprTie.
+From VD Require Import Proofs.C2SP Proofs.PointerP Proofs.ClientOpsP Proofs.PointerSpecP Gen.ExprsPointer Proofs.TiePointer.
 Import ListNotations.
 Open Scope Z_scope.
 
@@ -74,7 +74,7 @@ Proof. split; [apply Rel0|repeat constructor; cbn; lia]. Qed.
 
 (** The drag path of the model is the source's own: start, stop and step of the range, the intermediate position as a
     function of the loop variable and the final position are regenerated from client.py on every run (gen/exprs.py,
-    [Gen/Exprs.v]); Python's // is Coq's floor division. *)
+    [Gen/Exprs*.v]); Python's // is Coq's floor division. *)
 Theorem C05_drag_path_is_source : forall s x y step,
   mouseDrag s x y step =
   if step =? 0 then (s, None)
@@ -83,7 +83,7 @@ Theorem C05_drag_path_is_source : forall s x y step,
 Proof. exact mouseDrag_is_source. Qed.
 Print Assumptions C05_drag_path_is_source.
 
-(** The button and position bookkeeping of the model is the source's own ([Gen/Exprs.v]): the three arguments of the one
+(** The button and position bookkeeping of the model is the source's own ([Gen/Exprs*.v]): the three arguments of the one
     pointerEvent call of mouseMove / mouseDown / mouseUp and the new attribute values - assigned after the event has been
     written (fix: a move or press that cannot be sent is not remembered); `1 << (button - 1)` with button < 1 is
     Python's ValueError. *)
